@@ -175,6 +175,29 @@ def apply(it, fn, args, dest_ty, term, caller, depth):
         if r is not NotImplemented:
             return r
 
+    if path.startswith("core::result::Result") and args:
+        o = args[0]
+        ov = it.read(o.cell, o.path) if isinstance(o, Ref) else o
+        if isinstance(ov, Adt) and ov.name.endswith("result::Result") and ov.variant is not None:
+            ok = ov.variant == 0
+            if name == "is_ok":
+                return mkbool(ok)
+            if name == "is_err":
+                return mkbool(not ok)
+            if name in ("unwrap", "expect"):
+                if ok:
+                    return ov.fields[0]
+                raise Diverge("%s on Err" % name)
+            if name == "ok":
+                return some(ov.fields[0]) if ok else none()
+    # ---- SmallVec (modelled like Vec)
+    if path.startswith("smallvec::SmallVec"):
+        r = vec_model(it, name, fn, args, dest_ty)
+        if r is not NotImplemented:
+            return r
+        if name in ("deref", "deref_mut", "as_slice", "borrow") and args and isinstance(args[0], Ref):
+            return args[0]
+
     # ---- abstract iterators / VecDeque
     if "VecDeque" in path or "vec_deque" in path:
         r = deque_model(it, name, fn, args, dest_ty)
@@ -218,6 +241,14 @@ def apply(it, fn, args, dest_ty, term, caller, depth):
         if r is not NotImplemented:
             return r
     if path.startswith("core::slice::<impl [") or path.startswith("core::slice::"):
+        if name in ("last", "first") and len(args) == 1:
+            sq = seq_of(it, args[0])
+            if sq is not None:
+                v, off, n = sq
+                if n == 0:
+                    return none()
+                idx = off + (n - 1 if name == "last" else 0)
+                return some(Ref(args[0].cell, args[0].path + (("e", idx),)))
         if name == "len":
             return it.slice_len(args[0])
         if name == "is_empty":
@@ -321,6 +352,10 @@ def index_model(it, base, idx):
     if isinstance(v, Ref):  # &&[T]
         base = v
         v = it.read(base.cell, base.path)
+    if isinstance(v, Opaque) and it.h is not None:
+        r = it.h.opaque_index(it, v, idx, base)
+        if r is not None:
+            return r
     if not isinstance(v, (Arr, VecV)):
         return NotImplemented
     n = (len(v.elems) - base.off) if base.len is None else base.len
@@ -505,7 +540,7 @@ def iter_model(it, fn, name, args, dest_ty, term, caller, depth):
                 new, item = iter_next(it, cur, term, caller, depth, back=(name == "next_back"))
                 it.write(args[0].cell, args[0].path, new)
                 return item
-        if name == "collect" and args and isinstance(args[0], (IterV,)):
+        if name == "collect" and args and (isinstance(args[0], IterV) or (isinstance(args[0], Adt) and args[0].name.endswith("ops::Range"))):
             cur = args[0]
             out = []
             for _ in range(100000):
@@ -545,7 +580,7 @@ def iter_model(it, fn, name, args, dest_ty, term, caller, depth):
 
 def iter_next(it, cur, term, caller, depth, back=False):
     """returns (advanced iterator, Option item)"""
-    k = cur.kind
+    k = cur.kind if isinstance(cur, IterV) else None
     if isinstance(cur, Adt):  # Range<int>
         s, e = cur.fields
         lt = bv.compare("Lt", s, e)
